@@ -204,6 +204,44 @@ def build(tier="quick", seed=0):
                                     replay=lambda w, expr=expr, cls_name=cls_name, order=order: {"call": "c10_history", "args": {"expr": expr, "cls": cls_name, "order": order, "x": w.get("x") if isinstance(w.get("x"), int) else 0, "s": w.get("s") if isinstance(w.get("s"), str) else ""}},
                                     functions=FU, mode="paths are explored in lock step: the same decisions drive both evaluations, so equal outcomes on every path is equality of the match result"))
 
+    # grouped records with the same group name and the same flat fields but OTHER member types: names(r) is answered per record, in any order
+    for cls_name in ("Selector", "CompiledSelector"):
+        for order in ("ab then cd", "cd then ab"):
+            name = f"C10.history.grouped[{cls_name}, 'c10/ma' in names(r), {order}]"
+
+            def th(cls_name=cls_name, order=order):
+                mk = lambda tn, fn: it.call(it.call(RD, [tn, [("string", fn)]], {}), [], {fn: "v"})
+                GRc = base.g["GroupedRecord"]
+                g_ab = it.call(GRc, ["c10/grp", [mk("c10/ma", "x"), mk("c10/mb", "y")]], {})
+                g_cd = it.call(GRc, ["c10/grp", [mk("c10/mc", "x"), mk("c10/md", "y")]], {})
+                s1 = it.call(sel.g[cls_name], ['"c10/ma" in names(r)'], {})
+                seq = [g_ab, g_cd] if order.startswith("ab") else [g_cd, g_ab]
+                out = {}
+                for g in seq + seq:
+                    out.setdefault("ab" if g is g_ab else "cd", []).append(bool(it.truth(it.call(it.getattr_(s1, "match"), [g], {}))))
+                return out
+
+            pack.add(Obligation(name, lambda tier, name=name, th=th: prove_paths(name, th, lambda p: (p.value == {"ab": [True, True], "cd": [False, False]}, f"'\"c10/ma\" in names(r)' over two grouped records of one group name: {p.value}")),
+                                replay=lambda w, cls_name=cls_name, order=order: {"call": "c10_history_grouped", "args": {"cls": cls_name, "order": order}}, functions=FU, mode="two grouped records whose flat descriptors are equal"))
+
+    # matching leaves list-valued fields as they are, also when the list itself is handed to a helper function
+    for cls_name in ("Selector", "CompiledSelector"):
+        for expr in ("field_equals(r, ['s'], r.tags)", "field_contains(r, ['s'], r.tags)", "lower(r.s) in r.tags", "any(lower(x) == 'root' for x in r.tags)", "field_contains(r, ['tags'], ['root'])", "field_equals(r, ['tags', 'sl'], ['x'])"):
+            name = f"C10.frame.list[{cls_name}, {expr}]"
+
+            def th(expr=expr, cls_name=cls_name):
+                T = it.call(RD, ["c10/tags", [("string", "s"), ("string[]", "tags"), ("stringlist", "sl")]], {})
+                rec = it.call(T, [], {"s": "root", "tags": ["Wheel", "ROOT", "adm"], "sl": ["Mixed", "CASE"]})
+                s1 = it.call(sel.g[cls_name], [expr], {})
+                try:
+                    it.call(it.getattr_(s1, "match"), [rec], {})
+                except PyRaise:
+                    pass
+                return [it.unbase(x) for x in rec.attrs["tags"].base], [it.unbase(x) for x in it.unbase(rec.attrs["sl"])]
+
+            pack.add(Obligation(name, lambda tier, name=name, th=th, expr=expr: prove_paths(name, th, lambda p: (p.value == (["Wheel", "ROOT", "adm"], ["Mixed", "CASE"]), f"after matching {expr!r} the record's list fields hold {p.value}"), lambda m_, p: {}),
+                                replay=lambda w, expr=expr, cls_name=cls_name: {"call": "c10_frame_list", "args": {"expr": expr, "cls": cls_name}}, functions=FU, mode="list fields handed to the helper functions"))
+
     # the result for a record is given by the record alone: concrete two-record histories judged against the stated value (not against a second selector,
     # which a module-level cache would poison in the same way)
     REF_CASES = [
